@@ -319,6 +319,25 @@ async fn echo_wild(
     r
 }
 
+#[derive(Deserialize, JsonSchema)]
+pub struct PalPath {
+    colors: Vec<Color>,
+}
+
+/// A wildcard whose components are typed more narrowly than strings.
+#[endpoint { method = GET, path = "/pal/{colors:.*}", unpublished = true }]
+async fn echo_pal(
+    rqctx: RequestContext<SimCtx>,
+    path: Path<PalPath>,
+) -> Result<Response<Body>, HttpError> {
+    let (nonce, g) = delay(&rqctx).await;
+    let names: Vec<&str> = path.into_inner().colors.iter().map(|c| c.name()).collect();
+    let args = json!({"path": {"colors": names}});
+    let r = respond(nonce, args, ctx_json(&rqctx));
+    g.finish();
+    r
+}
+
 #[endpoint { method = GET, path = "/n/{a}/{b}/{c}" }]
 async fn echo_narrow(
     rqctx: RequestContext<SimCtx>,
@@ -569,6 +588,7 @@ pub fn register(api: &mut ApiDescription<SimCtx>, versioned: bool) {
     api.register(echo_who).unwrap();
     api.register(echo_mp).unwrap();
     api.register(echo_wild).unwrap();
+    api.register(echo_pal).unwrap();
     api.register(echo_narrow).unwrap();
     if versioned {
         api.register(thing_v1).unwrap();
